@@ -235,7 +235,10 @@ func (p c05) hostileSession(c *fw.Ctx, uniq *int) []string {
 			"print({\"v\": V, \"get\": () => V + 1}.get())", "print([V, () => V * 2][1]())", "print({\"k\": V++, \"j\": V})", "print([(V = V + 1), V])",
 			"for q = 2 {q++; print(q)}", "for q = 2 {q--}", "for q = 3 {--q; print(q, V)}", "for q = 2 {for q2 = 2 {q2++}; print(q)}", "for q = 2 {q = q + 1}; print(V)",
 			"if V == 1 {return V}", "for q = 3 {if q == 1 {return q}}", "for q = 1:4 {if q == 2 {return [q][0]}; if q == 3 {return q}}",
-			"print({V: () => V})", "print({\"a\": {\"b\": [x => x + V]}}.a.b[0](1))", "print(if V > 0 {{\"f\": () => V}.f()} else {0})"}
+			"print({V: () => V})", "print({\"a\": {\"b\": [x => x + V]}}.a.b[0](1))", "print(if V > 0 {{\"f\": () => V}.f()} else {0})",
+			// the name updated more than once inside one expression: every operand is the value at the time it was evaluated
+			"print((++V) + (++V))", "print(++V == ++V)", "print(++V * --V)", "print((--V) - (--V), V)", "print([++V, ++V, V])", "print((V++) + (V++), V)", "print(V + (++V), (++V) + V)", "print((++V) * 10 + (V++))",
+			"x = ++V; --V; print(x, V)", "print(++V < ++V, --V <= V)", "print({\"a\": ++V, \"b\": ++V})", "print(max(++V, ++V), min(--V, V))", "print((V = V + 1) + (V = V + 1))", "print(-(++V), !(++V == V))"}
 		setup := "cv = 0; qv = 0; bm = {0: \"a\", 1: \"b\", 2: \"c\", 3: \"d\", 4: \"e\", 5: \"f\", \"s\": 1, 2.5: 2}; ba = [0, 1, 2, 3, 4, 5, 6, 7, 8, 9, 10]; a = [10, 20, 30, 40]; m = {\"V\": 5, \"k\": 1, 1: \"one\"}; mf = {\"V\": z => z * 3}; s = \"hello\"; t = 0"
 		var body []string
 		for k := 0; k < 1+r.IntN(4); k++ {
